@@ -144,6 +144,9 @@ funptr_t* make_lfun_funp (int index, svalue_t * args) {
   add_ref (current_object, "make_efun_funp");
   funptr->hdr.type = FP_LOCAL | FP_NOT_BINDABLE;
 
+  /* the index below is only meaningful in this program: like a functional, a local
+   * function pointer keeps replace_program() from swapping it (see dealloc_funp()) */
+  current_object->prog->func_ref++;
   funptr->f.local.index = (function_index_t)(index + function_index_offset);
 
   if (args->type == T_ARRAY)
@@ -187,6 +190,9 @@ funptr_t* make_lfun_funp_by_name(const char *name, svalue_t *args) {
   funptr->hdr.owner = current_object;
   add_ref (current_object, "make_lfun_funp_by_name");
   funptr->hdr.type = FP_LOCAL | FP_NOT_BINDABLE;
+
+  // The index is only meaningful in this program: no replace_program() while the pointer lives
+  current_object->prog->func_ref++;
 
   // Convert compiler index to runtime index, then add inheritance offset
   // found_prog->function_table[index].runtime_index gives runtime index in found_prog
@@ -251,6 +257,11 @@ funptr_t* make_functional_funp (int num_arg, int num_local, int len, svalue_t * 
   funptr->hdr.type = (short)(FP_FUNCTIONAL | flag);
 
   current_prog->func_ref++;
+  /* a functional that uses the functions or variables of its owner (not bindable) does
+   * so through fio/vio, which are offsets into the owner's program: when it is made by
+   * inherited code, that program has to be kept from replace_program() as well */
+  if ((flag & FP_NOT_BINDABLE) && current_object->prog != current_prog)
+    current_object->prog->func_ref++;
 
   funptr->f.functional.prog = current_prog;
   funptr->f.functional.offset = (short)(pc - current_prog->program);
